@@ -22,6 +22,12 @@ func RandWire(r *rand.Rand, n int) []byte {
 // Mutate applies 1..3 byte-level mutations.
 func Mutate(r *rand.Rand, b []byte) []byte { return mutate(r, b) }
 
+// GroupInputs is the permanent corpus of protobuf-group shapes spliced into an honest transaction.
+func GroupInputs() [][]byte {
+	_, in := GroupCorpus(HonestSend("decoders", ""))
+	return in
+}
+
 // DecodeTxReal is lib.Unmarshal into a Transaction, canonicalised as the `decode` op expects.
 func DecodeTxReal(raw []byte) string { return decodeReal(raw) }
 
